@@ -1198,6 +1198,15 @@ def finish(report, decides, does_not_decide):
           'informational': report.infos[:40],
           'modules_parsed': len(report.repo.modules),
           'functions_indexed': report.repo.n_functions,
+          'normal_form': (
+              'before the rules ran every module was brought to the analysis '
+              'normal form: private helpers that are not rule anchors inlined '
+              'into their callers (list below), canonical statement shapes '
+              'C1-C10 (core.canonicalise)'),
+          'helpers_inlined': sorted(set(
+              l for m in report.repo.modules.values()
+              for l in getattr(m, 'inline_log', [])
+              if 'not inlined' not in l))[:80],
           'known_findings_listed': [v['key'] for v, _ in listed],
           'selftest': report.selftest,
       },
